@@ -24,6 +24,15 @@ class TraceHooks(simmodel.SimHooks):
                 out.append((q, var('SYMOFF', 32)))
                 q.events.append(('symmap-lookup', repr(key)))
             return out
+        if o is not None and o['kind'] == 'CXXThisExpr' and name not in ('trace', 'syscall', 'run') and len(args) == 1:
+            f = I.idx.func_by_id.get(cast.callee_of(node)[2])
+            if f is not None and f.type.rstrip().endswith('const') and 'char' in qt(f.params[0]) if f is not None and f.params else False:
+                # a const helper that maps the looked-up name to its table offset: opaque here, decided by rule R5
+                out = []
+                for q, key in I.expr(args[0], p):
+                    out.append((q, var('SYMOFF', 32)))
+                    q.events.append(('symmap-lookup', repr(key)))
+                return out
         if name == 'str' and o is not None and 'basic_format' in (dqt(o) + qt(o)):
             return I.expr(o, p)
         return simmodel.SimHooks.member_call(self, I, node, name, obj, args, p)
@@ -41,10 +50,11 @@ def run(rep, tier):
     rep.analysed(unit='hexsim.cpp')
     rep.trusted = ['clang 14 AST', 'boost::format prints its arguments in order', 'ISA opcode table']
     rep.assumptions = ['symbol tables are written by hexasm (ascending offsets, one entry per FUNC/PROC directive: rule R3)']
-    rule_prefix(rep, idx)
-    rule_format(rep, idx)
-    rule_symbols(rep)
-    rule_lookup(rep, idx)
+    for fn, a in ((rule_prefix, (rep, idx)), (rule_format, (rep, idx)), (rule_symbols, (rep,)), (rule_lookup, (rep, idx)), (rule_symbol_offset, (rep, idx))):
+        try:
+            fn(*a)
+        except AnalysisBroken as e:
+            rep.broken.append('%s: %s' % (fn.__name__, e))     # the other rules still report
 
 
 # --------------------------------------------------------------------------------------------------
@@ -231,28 +241,116 @@ def rule_symbols(rep):
 
 def rule_lookup(rep, idx):
     rep.rule('R4', 'lookupSymbol returns the last symbol whose offset is <= the address and nothing below the first symbol, for every '
-             'position of the address among 1..3 ascending offsets (all orderings)', floor=10)
+             'position of the address among 1..3 ascending offsets (all orderings), also when it is called for two addresses in '
+             'succession on the same simulator object (whatever it remembers between calls must not change the answer)', floor=10)
     f = idx.func('hexsim::Processor::lookupSymbol')
     rep.analysed(f.sig)
+
+    def fresh(tab):
+        I = ivinterp.Interp(idx)
+        try:
+            this = I.construct('hexsim::Processor', [Obj('std::istream', {}, 'in'), Obj('std::ostream', {}, 'out'), ivinterp.const(64, False, 0)])
+        except (AnalysisBroken, ivinterp.Thrown, ivinterp.NeedSplit):
+            this = Obj('hexsim::Processor', {}, 'processor')
+        this.fields['debugInfo'] = tab
+        return I, this
+
+    def expected(offs, pc):
+        want = None
+        for i, o in enumerate(offs):
+            if pc >= o:
+                want = ('str', 'sym%d' % i)
+        return want
     for ntab in (1, 2, 3):
         offs = [10 * (i + 1) for i in range(ntab)]
-        points = []
-        for i in range(ntab + 1):
-            points.append(10 * i + 5)
-        for o in offs:
-            points.append(o)
-        for pc in sorted(set(points)):
-            I = ivinterp.Interp(idx)
-            tab = Vec([Obj('pair', {'first': ('str', 'sym%d' % i), 'second': ivinterp.const(32, False, o)}) for i, o in enumerate(offs)])
-            this = Obj('hexsim::Processor', {'debugInfo': tab, 'lastPC': ivinterp.const(32, False, pc)})
+        points = sorted(set([10 * i + 5 for i in range(ntab + 1)] + offs + [o - 1 for o in offs]))
+        tabf = lambda: Vec([Obj('pair', {'first': ('str', 'sym%d' % i), 'second': ivinterp.const(32, False, o)}) for i, o in enumerate(offs)])
+        for pc in points:
+            I, this = fresh(tabf())
+            this.fields['lastPC'] = ivinterp.const(32, False, pc)
             try:
                 r = I.invoke(f, this, [])
             except ivinterp.Thrown as e:
                 r = ('thrown', e.what)
-            want = None
-            for i, o in enumerate(offs):
-                if pc >= o:
-                    want = ('str', 'sym%d' % i)
+            want = expected(offs, pc)
             rel = 'below the first' if want is None else 'in/at %s' % want[1]
             rep.add('R4', 'table=%d:address-%s:%d' % (ntab, rel.replace(' ', '-'), pc), r == want, pos(f.node) + ' hexsim::Processor::lookupSymbol',
                     'offsets %s, address %d: returns %r, expected %r%s' % (offs, pc, r, want, ('; UB: %s' % I.ub) if I.ub else ''))
+        # two lookups in succession (history independence)
+        bad = []
+        n = 0
+        for pc1 in points:
+            for pc2 in points:
+                I, this = fresh(tabf())
+                try:
+                    this.fields['lastPC'] = ivinterp.const(32, False, pc1)
+                    I.invoke(f, this, [])
+                    this.fields['lastPC'] = ivinterp.const(32, False, pc2)
+                    r = I.invoke(f, this, [])
+                except ivinterp.Thrown as e:
+                    r = ('thrown', e.what)
+                n += 1
+                if r != expected(offs, pc2):
+                    bad.append('after a lookup of address %d, address %d gives %r instead of %r' % (pc1, pc2, r, expected(offs, pc2)))
+        rep.add('R4', 'table=%d:two-lookups-in-succession' % ntab, not bad, pos(f.node) + ' hexsim::Processor::lookupSymbol',
+                '; '.join(bad[:3]) if bad else '%d ordered pairs of addresses agree with the single lookup' % n)
+
+
+def rule_symbol_offset(rep, idx):
+    """The offset printed next to a symbol is measured from *that* symbol: trace() computes  lastPC - <offset of the name that
+    lookupSymbol returned>;  the name -> offset step (a map, a search ...) is interpreted on tables whose names are related the way
+    real programs' names are (one a prefix of another, defined in either order)."""
+    rep.rule('R5', 'symbol+offset: the offset printed is the address minus the table offset of exactly the symbol lookupSymbol returned, for '
+             'tables whose names are prefixes of one another in either order (mul_step/mul, div/div_step) and for every address class', floor=4)
+    tr = idx.func('hexsim::Processor::trace')
+    lk = idx.func('hexsim::Processor::lookupSymbol')
+    # the declaration  <offset var> = lastPC - <name -> offset>  inside trace()
+    cand = []
+    for d in walk(tr.body):
+        if d['kind'] == 'VarDecl' and children(d):
+            ini = cast.strip(children(d)[-1])
+            if ini['kind'] == 'BinaryOperator' and ini.get('opcode') == '-' and (cast.member_ref(children(ini)[0]) or (None,))[0] == 'lastPC':
+                cand.append((d, ini))
+    where = pos(tr.node) + ' hexsim::Processor::trace'
+    if len(cand) != 1:
+        rep.undecided('R5', 'symbol-offset-expression', 'trace() does not compute `lastPC - <offset of the symbol>` in one declaration: idiom not recognised', where)
+        return
+    decl, ini = cand[0]
+    namevars = [x for x in walk(children(ini)[1]) if x['kind'] == 'DeclRefExpr' and (x.get('referencedDecl') or {}).get('kind') == 'VarDecl']
+    if not namevars:
+        rep.undecided('R5', 'symbol-offset-expression', 'the offset expression does not use the looked-up name: idiom not recognised', where)
+        return
+    name_id = namevars[0]['referencedDecl']['id']
+    for names in (('main', 'mul_step', 'mul'), ('main', 'mul', 'mul_step'), ('a', 'ab', 'abc'), ('abc', 'ab', 'a')):
+        offs = [10 * (i + 1) for i in range(len(names))]
+        bad = []
+        n = 0
+        for pc in [o + k for o in offs for k in (0, 3, 9)]:
+            I = ivinterp.Interp(idx)
+            tab = Vec([Obj('pair', {'first': ('str', nm), 'second': ivinterp.const(32, False, o)}) for nm, o in zip(names, offs)])
+            try:
+                this = I.construct('hexsim::Processor', [Obj('std::istream', {}, 'in'), Obj('std::ostream', {}, 'out'), ivinterp.const(64, False, 0)])
+            except (AnalysisBroken, ivinterp.Thrown, ivinterp.NeedSplit):
+                this = Obj('hexsim::Processor', {}, 'processor')
+            this.fields['debugInfo'] = tab
+            this.fields['debugInfoMap'] = {nm: ivinterp.const(32, False, o) for nm, o in zip(names, offs)}
+            this.fields['lastPC'] = ivinterp.const(32, False, pc)
+            try:
+                sym = I.invoke(lk, this, [])
+                env = {'this': this, 'locals': {name_id: sym}}
+                v = I.expr(ini, env)
+            except ivinterp.Thrown as e:
+                v = ('thrown', e.what)
+            except ivinterp.NeedSplit as e:
+                rep.undecided('R5', 'names=%s' % (names,), 'not concrete: %s' % e, where)
+                bad = None
+                break
+            want_sym = [nm for nm, o in zip(names, offs) if pc >= o][-1]
+            want = pc - dict(zip(names, offs))[want_sym]
+            n += 1
+            got = v.lo if isinstance(v, IV) and v.concrete() else v
+            if not (isinstance(sym, tuple) and sym[1] == want_sym and got == want):
+                bad.append('address %d: symbol %r, offset printed %r, expected %s+%d' % (pc, sym[1] if isinstance(sym, tuple) else sym, got, want_sym, want))
+        if bad is None:
+            continue
+        rep.add('R5', 'names=%s' % ','.join(names), not bad, where, '; '.join(bad[:3]) if bad else '%d addresses: offset is measured from the symbol shown' % n)
